@@ -14,6 +14,7 @@ package main
 
 import (
 	"bufio"
+	"bytes"
 	"context"
 	"encoding/json"
 	"errors"
@@ -118,6 +119,7 @@ type event struct {
 	Failed bool   `json:"failed"`
 	Pend   []tid  `json:"pend"`
 	Res    int    `json:"res"`
+	K      string `json:"k"` // reply / ret / pong: the kind of result the response carries ("" otherwise)
 	rawID  string
 	rawPnd []string
 }
@@ -163,6 +165,8 @@ type run struct {
 	retErr    map[int]string
 	peerErr   []string
 	pongs     int
+	shift     int          // result kinds: KindAt(shift, marker)
+	handled   atomic.Int64 // calls of the peer the handler has answered
 	pcallsOut int
 	strayQ    map[string]bool // %q forms of the ids of the stray responses the peer has sent
 	paramOf   map[int]string  // caller -> params of its request as the peer received them (the call's marker)
@@ -355,27 +359,32 @@ func (r *run) startCaller(c int) {
 		r.roles[g] = c
 		r.mu.Unlock()
 		r.waitGate()
-		var got string
+		var got json.RawMessage
 		_, err := r.conn.Call(r.ctxs[c], "c"+strconv.Itoa(c), "p"+strconv.Itoa(c), &got)
 		seq := jsonrpc2.VerifSeq()
-		res, txt := resOther, ""
+		res, txt, kind := resOther, "", ""
+		var je *jsonrpc2.Error
 		switch {
-		case err == nil:
-			txt = got
-			if strings.HasPrefix(got, "r") {
-				if k, e := strconv.Atoi(got[1:]); e == nil {
-					res = k
-				}
-			}
 		case errors.Is(err, context.Canceled) && strings.Contains(err.Error(), "write to stream"):
 			res, txt = resWerr, err.Error()
 		case errors.Is(err, context.Canceled):
 			res, txt = resCancel, err.Error()
+		case err == nil || errors.As(err, &je):
+			// a response (successful or an error response): which kind of result, echoing whose marker?
+			kind, res, txt = readResponse(got, err)
+			if res == -1 { // null / true / false carry no marker: the request the spec gives that kind to
+				res = resOther
+				for m := 1; m <= r.ncall; m++ {
+					if kindAt(r.shift, m) == kind {
+						res = m
+					}
+				}
+			}
 		default:
 			txt = err.Error()
 		}
 		r.mu.Lock()
-		r.log = append(r.log, event{Seq: seq, E: "ret", W: c, Res: res})
+		r.log = append(r.log, event{Seq: seq, E: "ret", W: c, Res: res, K: kind})
 		r.returned[c], r.retErr[c] = res, txt
 		r.mu.Unlock()
 	}()
@@ -435,7 +444,12 @@ func (r *run) reply(c int) {
 	// the peer echoes the marker of the request it answers: params "p<k>" -> result "r<k>"
 	tok := "r" + strings.TrimPrefix(strings.Trim(r.paramOf[c], `"`), "p")
 	r.mu.Unlock()
-	r.peerSend("reply", c, id, fmt.Sprintf(`{"jsonrpc":"2.0","id":%s,"result":%q}`, id.wire(), tok))
+	marker, err := strconv.Atoi(tok[1:])
+	if err != nil {
+		marker = c
+	}
+	kind := kindAt(r.shift, marker)
+	r.peerSendK("reply", c, id, kind, fmt.Sprintf(`{"jsonrpc":"2.0","id":%s,%s}`, id.wire(), responseMembers(kind, tok)))
 }
 
 // stray: the peer sends a response nobody asked for, with the k-th id of the spec's StrayIdSeq -- e.g. the
@@ -453,10 +467,12 @@ func (r *run) stray(k int) {
 
 // peerSend logs the event and puts the frame on the wire in one step: the order of the peer's events in
 // the trace is the order of its messages in the byte stream.
-func (r *run) peerSend(ev string, w int, id tid, body string) {
+func (r *run) peerSend(ev string, w int, id tid, body string) { r.peerSendK(ev, w, id, "", body) }
+
+func (r *run) peerSendK(ev string, w int, id tid, kind, body string) {
 	r.pw.Lock()
 	defer r.pw.Unlock()
-	r.add(event{Seq: jsonrpc2.VerifSeq(), E: ev, W: w, ID: id})
+	r.add(event{Seq: jsonrpc2.VerifSeq(), E: ev, W: w, ID: id, K: kind})
 	r.toConn.Write([]byte(fmt.Sprintf("Content-Length: %d\r\n\r\n%s", len(body), body)))
 }
 
@@ -528,6 +544,7 @@ func (r *run) peerLoop(done chan<- struct{}) {
 			Method string           `json:"method"`
 			Params json.RawMessage  `json:"params"`
 			Result json.RawMessage  `json:"result"`
+			Error  json.RawMessage  `json:"error"`
 		}
 		if err := json.Unmarshal(body, &m); err != nil {
 			fail(fmt.Sprintf("frame body is not one JSON value: %q", body))
@@ -574,11 +591,14 @@ func (r *run) peerLoop(done chan<- struct{}) {
 		default: // answer to a call of the peer
 			// which id it carries (type and text) is recorded as a pong event and judged by the trace spec
 			r.mu.Lock()
-			if m.ID == nil || string(m.Result) != `"pong"` {
+			if m.ID == nil {
 				r.peerErr = append(r.peerErr, fmt.Sprintf("unexpected response %q", body))
 			} else {
+				// which kind of result it carries is judged by the trace spec too (the handler's null result must
+				// be on the wire as "result":null)
 				r.pongs++
-				r.log = append(r.log, event{Seq: jsonrpc2.VerifSeq(), E: "pong", W: 0, ID: tidOfRaw(*m.ID)})
+				r.log = append(r.log, event{Seq: jsonrpc2.VerifSeq(), E: "pong", W: 0, ID: tidOfRaw(*m.ID),
+					K: wireKind(m.Result, m.Error, bytes.Contains(body, []byte(`"result"`)))})
 			}
 			r.mu.Unlock()
 		}
@@ -707,6 +727,23 @@ func (r *run) waitCallers(cs []int, d time.Duration) bool {
 // diagnose a hang from the goroutine dump: only a goroutine of the conn blocked where the property says
 // it must not be is a violation; anything else is a harness problem.
 func (r *run) hang(what string, cs []int) (sig, msg string) {
+	select {
+	case <-r.conn.Done():
+		// nobody closed the conn: run gave up on a message of the peer (stream.Read / DecodeMessage returned an
+		// error), the stream is closed and the calls in flight never get their responses
+		if err := r.conn.Err(); err != nil {
+			last := ""
+			r.mu.Lock()
+			for _, e := range r.log {
+				if e.E == "reply" || e.E == "stray" || e.E == "pcall" || e.E == "pnotify" {
+					last = fmt.Sprintf("%s(%d) kind=%s", e.E, e.W, e.K)
+				}
+			}
+			r.mu.Unlock()
+			return "JsonRpc.ReaderAlive", fmt.Sprintf("%s: the run loop stopped with %q on a well-formed message of the peer (last sent: %s); calls %v never return", what, err.Error(), last, cs)
+		}
+	default:
+	}
 	r.mu.Lock()
 	peerErr := append([]string(nil), r.peerErr...)
 	r.mu.Unlock()
@@ -748,8 +785,142 @@ func firstLines(s string, n int) string {
 	return strings.Join(l, "\n")
 }
 
+// ---------------------------------------------------------------------------------------------
+// result kinds (JsonRpc.tla: ResKindSeq, KindAt): the response to the request with marker m carries a result of
+// kind KindAt(shift, m); the handler answers the j-th call of the peer with kind KindAt(shift, j).
+
+var resKindSeq = []string{"null", "object", "errdata", "array", "number", "true", "false", "string", "error"}
+
+func kindAt(shift, m int) string {
+	if m == strayTok || m < 1 {
+		return "string"
+	}
+	return resKindSeq[(m-1+shift)%len(resKindSeq)]
+}
+
+// responseBody: the JSON members (after jsonrpc and id) of a response of the given kind echoing marker tok.
+func responseMembers(kind, tok string) string {
+	n := strings.TrimPrefix(tok, "r")
+	switch kind {
+	case "null":
+		return `"result":null`
+	case "object":
+		return fmt.Sprintf(`"result":{"m":%q,"x":[1,{"y":null}]}`, tok)
+	case "array":
+		return fmt.Sprintf(`"result":[%q,null,2]`, tok)
+	case "number":
+		return `"result":` + n
+	case "true", "false":
+		return `"result":` + kind
+	case "error":
+		return fmt.Sprintf(`"error":{"code":-32602,"message":%q}`, tok)
+	case "errdata":
+		return fmt.Sprintf(`"error":{"code":-32603,"message":"with data","data":{"m":%q}}`, tok)
+	}
+	return fmt.Sprintf(`"result":%q`, tok)
+}
+
+// readResponse: kind and marker of what Call returned (raw result, or the error of an error response).
+// marker -1: the kind cannot carry one (null, true, false).
+func readResponse(raw json.RawMessage, err error) (kind string, marker int, text string) {
+	mk := func(tok string) int {
+		if k, e := strconv.Atoi(strings.TrimPrefix(tok, "r")); e == nil && strings.HasPrefix(tok, "r") {
+			return k
+		}
+		return resOther
+	}
+	if err != nil {
+		var je *jsonrpc2.Error
+		if !errors.As(err, &je) {
+			return "other", resOther, err.Error()
+		}
+		if je.Data != nil {
+			var d struct {
+				M string `json:"m"`
+			}
+			_ = json.Unmarshal(*je.Data, &d)
+			return "errdata", mk(d.M), je.Message + " data=" + string(*je.Data)
+		}
+		return "error", mk(je.Message), je.Message
+	}
+	t := strings.TrimSpace(string(raw))
+	switch {
+	case t == "" || t == "null":
+		return "null", -1, t
+	case t == "true" || t == "false":
+		return t, -1, t
+	case t[0] == '{':
+		var d struct {
+			M string `json:"m"`
+		}
+		_ = json.Unmarshal(raw, &d)
+		return "object", mk(d.M), t
+	case t[0] == '[':
+		var a []any
+		_ = json.Unmarshal(raw, &a)
+		if len(a) > 0 {
+			if s0, ok := a[0].(string); ok {
+				return "array", mk(s0), t
+			}
+		}
+		return "array", resOther, t
+	case t[0] == '"':
+		var s0 string
+		_ = json.Unmarshal(raw, &s0)
+		return "string", mk(s0), t
+	}
+	if k, e := strconv.Atoi(t); e == nil {
+		return "number", k, t
+	}
+	return "number", resOther, t
+}
+
+// handlerReply answers the j-th call of the peer with a result of kind KindAt(shift, j): reply(ctx, nil, nil) for null.
+func (r *run) handlerReply(ctx context.Context, reply jsonrpc2.Replier) error {
+	j := int(r.handled.Add(1))
+	switch kindAt(r.shift, j) {
+	case "null":
+		return reply(ctx, nil, nil)
+	case "object":
+		return reply(ctx, map[string]any{"m": "pong"}, nil)
+	case "array":
+		return reply(ctx, []any{"pong", nil}, nil)
+	case "number":
+		return reply(ctx, 7, nil)
+	case "true":
+		return reply(ctx, true, nil)
+	case "false":
+		return reply(ctx, false, nil)
+	case "error":
+		return reply(ctx, nil, jsonrpc2.NewError(jsonrpc2.InvalidParams, "pong"))
+	case "errdata":
+		d := json.RawMessage(`{"m":"pong"}`)
+		return reply(ctx, nil, &jsonrpc2.Error{Code: jsonrpc2.InternalError, Message: "pong", Data: &d})
+	}
+	return reply(ctx, "pong", nil)
+}
+
+// wireKind: the kind of result / error a response frame carries, as the peer's independent parser sees it.
+func wireKind(result, errm json.RawMessage, hasResult bool) string {
+	if len(errm) > 0 && string(errm) != "null" {
+		var e struct {
+			Data *json.RawMessage `json:"data"`
+		}
+		_ = json.Unmarshal(errm, &e)
+		if e.Data != nil {
+			return "errdata"
+		}
+		return "error"
+	}
+	if !hasResult {
+		return "absent"
+	}
+	k, _, _ := readResponse(result, nil)
+	return k
+}
+
 func newRun(id int, sc *script, ncall int) *run {
-	r := &run{id: id, sc: sc, ncall: ncall, toConn: newBufPipe(), toPeer: newBufPipe(),
+	r := &run{id: id, sc: sc, ncall: ncall, shift: id % len(resKindSeq), toConn: newBufPipe(), toPeer: newBufPipe(),
 		roles: map[int64]int{}, idOf: map[int]string{}, callerOf: map[string]int{}, peerGot: map[int]bool{}, deferred: map[int]bool{},
 		replied: map[int]bool{}, cancelled: map[int]bool{}, started: map[int]bool{}, returned: map[int]int{}, retErr: map[int]string{},
 		strayQ: map[string]bool{}, paramOf: map[int]string{}}
@@ -804,7 +975,7 @@ func (r *run) traceLine(eager bool) ([]byte, int) {
 		}
 	}
 	timedOut := append([]int{}, r.timedOut...)
-	line, _ := json.Marshal(map[string]any{"id": r.id, "eager": eager, "regnum": regnum, "lazy": lazy, "ev": evs, "timedout": timedOut,
+	line, _ := json.Marshal(map[string]any{"id": r.id, "shift": r.shift, "eager": eager, "regnum": regnum, "lazy": lazy, "ev": evs, "timedout": timedOut,
 		"hang": map[string]string{"sig": r.hangSig, "what": r.hangWhat}})
 	return line, len(evs)
 }
@@ -828,7 +999,7 @@ func runCase(id int, sc *script) (cr caseResult) {
 	}()
 	handler := func(ctx context.Context, reply jsonrpc2.Replier, req jsonrpc2.Request) error {
 		if _, ok := req.(*jsonrpc2.Call); ok {
-			return reply(ctx, "pong", nil)
+			return r.handlerReply(ctx, reply)
 		}
 		return nil
 	}
